@@ -115,6 +115,44 @@ void do_exact(Ctx<W> &x, const std::string &variant) {
 }
 
 template<class W>
+void do_trees(Ctx<W> &x) {
+    typedef typename Ctx<W>::Graph Graph;
+    typedef typename property_map<Graph, edge_weight_t>::type WM;
+    typedef typename property_map<Graph, vertex_index_t>::type IM;
+    WM wm = get(edge_weight, x.g);
+    IM im = get(vertex_index, x.g);
+    for (std::size_t s = 0; s < x.n; s++) {
+        parmcb::SPTree<Graph, WM> t(s, x.g, im, wm, s);
+        std::cout << "tree " << s << "\n";
+        std::cout << "dist";
+        for (std::size_t v = 0; v < x.n; v++) { auto nd = t.node(v); if (nd) std::cout << " " << x.scaled(nd->weight()); else std::cout << " -"; }
+        std::cout << "\npred";
+        for (std::size_t v = 0; v < x.n; v++) { auto nd = t.node(v); if (nd && nd->has_pred()) std::cout << " " << x.id(nd->pred()); else std::cout << " -"; }
+        std::cout << "\nfirst";
+        for (std::size_t v = 0; v < x.n; v++) std::cout << " " << t.first(v);
+        std::cout << "\n";
+    }
+}
+
+template<class W>
+void do_cands(Ctx<W> &x, const std::string &which) {
+    typedef typename Ctx<W>::Graph Graph;
+    typedef typename property_map<Graph, edge_weight_t>::type WM;
+    WM wm = get(edge_weight, x.g);
+    std::vector<parmcb::SPTree<Graph, WM>> trees;
+    std::vector<parmcb::CandidateCycle<Graph, WM>> cycles;
+    if (which == "horton") { parmcb::detail::HortonCyclesBuilder<Graph, WM> b; b(x.g, wm, trees, cycles); }
+    else if (which == "fvs") {
+        std::vector<typename Ctx<W>::Vertex> fv; parmcb::greedy_fvs(x.g, std::back_inserter(fv));
+        std::cout << "fvs"; for (auto v : fv) std::cout << " " << v; std::cout << "\n";
+        parmcb::detail::FVSCyclesBuilder<Graph, WM> b; b(x.g, wm, trees, cycles);
+    } else { parmcb::detail::ISOCyclesBuilder<Graph, WM> b; b(x.g, wm, trees, cycles); }
+    std::cout << "tsrc"; for (auto &t : trees) std::cout << " " << t.source(); std::cout << "\n";
+    for (auto &c : cycles) std::cout << "cand " << c.tree() << " " << x.id(c.edge()) << " " << x.scaled(c.weight()) << "\n";
+    std::cout << "ncand " << cycles.size() << "\n";
+}
+
+template<class W>
 void do_spanner(Ctx<W> &x, std::size_t k) {
     typedef typename Ctx<W>::Graph Graph; typedef typename Ctx<W>::Edge Edge;
     typedef typename property_map<Graph, edge_weight_t>::type WM;
@@ -194,6 +232,8 @@ void run_case(const CaseIn &c) {
     if (c.kind == "forest") do_forest(x);
     else if (c.kind == "fvs") do_fvs(x);
     else if (c.kind == "exact") do_exact(x, c.args.at(2));
+    else if (c.kind == "trees") do_trees(x);
+    else if (c.kind == "cands") do_cands(x, c.args.at(2));
     else if (c.kind == "spanner") do_spanner(x, std::stoul(c.args.at(2)));
     else if (c.kind == "approx") do_approx(x, c.args.at(2), std::stoul(c.args.at(3)));
     std::cout << "end\n";
